@@ -17,6 +17,9 @@
 (*         split : BOOLEAN  the literal's attribute comes first and the    *)
 (*                          bound() attribute second, or the reverse,      *)
 (*         uses : BOOLEAN   the literal's argument needs the predicate,     *)
+(*         sh   : "none" | "wrap" | "default"  an enum-level format:       *)
+(*                          `[{_variant}]` wraps every variant, `dflt` is  *)
+(*                          what variants without a literal print,         *)
 (*         lit  : BOOLEAN   the attributed struct / variant HAS a literal;  *)
 (*                          without one it is a delegated single field or   *)
 (*                          (Display) a unit variant printing its name]     *)
@@ -27,7 +30,8 @@ EXTENDS Naturals, Sequences, FiniteSets, TLC
 \* (derive(Debug) takes `bound(...)` on the item only: on a variant it reports a diagnostic, "expected string literal")
 WellFormed(c) ==
     /\ (c.kind = "struct" => c.bpos = "container" /\ c.other = "none")
-    /\ (c.D = "Debug" => c.bpos = "container")
+    /\ (c.D = "Debug" => c.bpos = "container" /\ c.sh = "none")
+    /\ (c.kind = "struct" => c.sh = "none")
     \* without a literal: nothing can use the predicate; exactly one field (delegation) or a Display unit variant
     /\ (~c.lit => ~c.uses /\ (c.shape = "one" \/ (c.shape = "unit" /\ c.D = "Display" /\ c.kind = "enum")))
     /\ (~c.lit /\ c.D = "Debug" => c.kind = "struct")
@@ -36,7 +40,9 @@ WellFormed(c) ==
     /\ (c.shape = "unit" => ~c.gf)
 
 \* the contract (a delegated field is formatted under the derived trait: the same inferred bound)
-Inferred(c)  == (IF c.gf THEN {"T: " \o c.D} ELSE {}) \cup (IF c.other = "generic" THEN {"U: " \o c.D} ELSE {})
+\* (under an enum-level default, a variant without a literal prints the default text: its field is not formatted)
+Inferred(c)  == (IF c.gf /\ (c.lit \/ c.sh # "default") THEN {"T: " \o c.D} ELSE {})
+                \cup (IF c.other = "generic" /\ c.sh # "default" THEN {"U: " \o c.D} ELSE {})
 QSubj(c)     == IF c.kind = "struct" /\ ~c.lit THEN "T" ELSE "Q"
 Explicit(c)  == (IF c.bpos \in {"container", "both"} THEN {QSubj(c) \o ": Mk"} ELSE {})
                 \cup (IF c.bpos \in {"variant", "both"} THEN {"R: Mk"} ELSE {})
@@ -53,5 +59,5 @@ ImplPreds(c, guardOnGenerics) ==
 Agree(c) == ImplPreds(c, FALSE) = DocPreds(c)
 \* the guarded variant is told apart (the law is not vacuous)
 Sensitive == \E c \in [D : {"Display"}, kind : {"enum"}, bpos : {"variant"}, gf : {FALSE}, shape : {"one"}, other : {"none"},
-                       spelling : {"bound"}, split : {TRUE}, uses : {TRUE}, lit : {TRUE}] : ImplPreds(c, TRUE) # DocPreds(c)
+                       spelling : {"bound"}, split : {TRUE}, uses : {TRUE}, lit : {TRUE}, sh : {"none"}] : ImplPreds(c, TRUE) # DocPreds(c)
 =============================================================================
